@@ -1,9 +1,149 @@
 import WM.Proto
-namespace WM.Drv.C01
-open WM.Proto
+import WM.Spec.Search
+import WM.Model.Compile
+/-!
+Protocol handler of family `c01` (shared with `c09`).
 
-/-- Protocol handler of family `c01` (requests arrive without the family token). -/
+```
+INDEX  = ( SEG ... )            SEG = ( ( DOC ... ) ( deleted-local-docnum ... ) )
+DOC    = ( FIELD ... )          FIELD = ( name boost ( TOK ... ) ( num ... ) [ ( ( hexterm score ) ... ) ] )
+TOK    = ( hexterm pos boost )
+QUERY  = (term f hex boost) | (multi f PRED boost cs) | (phrase f (hex ...) slop boost)
+       | (numrange f lo hi loExcl hiExcl boost) | (every f|none boost) | null
+       | (and (Q ...) boost) | (or (Q ...) boost) | (dismax (Q ...) boost) | (not Q)
+       | (andnot A B) | (andmaybe A B) | (require A B) | (const Q score)
+PRED   = (pfx hex) | (range lo hi loExcl hiExcl) | (glob (G ...)) | (fuzzy hex maxdist prefix)
+       | (oneof (hex ...)) | all           G = (lit n) | any | star | (cls neg (n ...))
+MODE   = freq | table           (leaf scores: stored weight, or the per-field score table)
+
+answer INDEX (Q ...)                 -> ((id ...) ...)            spec: matching global doc numbers
+hits MODE INDEX (Q ...)              -> (((id score) ...) ...)    spec: ascending doc number
+rank MODE INDEX (Q ...)              -> (((id score) ...) ...)    spec: ranking order
+compile MODE nc scored INDEX (Q ...) -> ((((id score) ...) ...) ...)  model: per query, per segment
+wf INDEX (Q ...)                     -> (segments-ok q-ok ...)    hypotheses of the theorems (0/1)
+```
+-/
+namespace WM.Drv.C01
+open WM.Proto WM.Search WM.Compile
+
+def term? (e : SExp) : Option Term := e.atom? >>= hexBytes?
+
+def token? (e : SExp) : Option Token :=
+  match e with
+  | .list [t, p, b] => do pure ⟨← term? t, ← p.nat?, ← b.rat?⟩
+  | _ => none
+
+/-- a field together with its optional leaf-score table -/
+def field? (e : SExp) : Option (FieldVal × List (Term × Rat)) :=
+  match e with
+  | .list [.atom n, b, toks, nums] => do
+    pure (⟨n, ← b.rat?, ← SExp.listOf? token? toks, ← SExp.listOf? SExp.rat? nums⟩, [])
+  | .list [.atom n, b, toks, nums, tbl] => do
+    let row (r : SExp) : Option (Term × Rat) :=
+      match r with
+      | .list [t, s] => do pure (← term? t, ← s.rat?)
+      | _ => none
+    pure (⟨n, ← b.rat?, ← SExp.listOf? token? toks, ← SExp.listOf? SExp.rat? nums⟩,
+          ← SExp.listOf? row tbl)
+  | _ => none
+
+/-- Leaf-score tables travel inside the document as pseudo fields named `name ++ "\x00score"`
+    whose tokens are (term, 0, score): the spec structures stay as they are. -/
+def doc? (e : SExp) : Option Doc := do
+  let fs ← SExp.listOf? field? e
+  let real := fs.map (·.1)
+  let tbls := fs.filterMap (fun (fv, tbl) =>
+    if tbl.isEmpty then none
+    else some ⟨fv.name ++ "\x00score", 1, tbl.map (fun (t, s) => ⟨t, 0, s⟩), []⟩)
+  pure ⟨real ++ tbls⟩
+
+/-- `table` mode: the score of (field, term) in the document's table; the stored weight when the
+    table has no row. -/
+def tableLeaf : LeafScore := fun d f t =>
+  match (d.tokens (f ++ "\x00score")).find? (fun k => k.term == t) with
+  | some k => k.boost
+  | none => d.weight f t
+
+def seg? (e : SExp) : Option Segment :=
+  match e with
+  | .list [docs, del] => do pure ⟨← SExp.listOf? doc? docs, ← del.natList?⟩
+  | _ => none
+
+def index? (e : SExp) : Option Index := SExp.listOf? seg? e
+
+def glob? (e : SExp) : Option Glob :=
+  match e with
+  | .atom "any" => some .any
+  | .atom "star" => some .star
+  | .list [.atom "lit", n] => Glob.lit <$> n.nat?
+  | .list [.atom "cls", neg, cs] => do pure (.cls (← neg.bool?) (← cs.natList?))
+  | _ => none
+
+def pred? (e : SExp) : Option TermPred :=
+  match e with
+  | .atom "all" => some .all
+  | .list [.atom "pfx", p] => TermPred.pfx <$> term? p
+  | .list [.atom "range", lo, hi, le, he] => do
+    pure (.range (← SExp.opt? term? lo) (← SExp.opt? term? hi) (← le.bool?) (← he.bool?))
+  | .list [.atom "glob", gs] => TermPred.glob <$> SExp.listOf? glob? gs
+  | .list [.atom "fuzzy", w, k, p] => do pure (.fuzzy (← term? w) (← k.nat?) (← p.nat?))
+  | .list [.atom "oneof", ts] => TermPred.oneOf <$> SExp.listOf? term? ts
+  | _ => none
+
+partial def query? (e : SExp) : Option Query :=
+  match e with
+  | .atom "null" => some .null
+  | .list [.atom "term", .atom f, t, b] => do pure (.term f (← term? t) (← b.rat?))
+  | .list [.atom "multi", .atom f, p, b, cs] => do pure (.multi f (← pred? p) (← b.rat?) (← cs.bool?))
+  | .list [.atom "phrase", .atom f, ws, slop, b] => do
+    pure (.phrase f (← SExp.listOf? term? ws) (← slop.nat?) (← b.rat?))
+  | .list [.atom "numrange", .atom f, lo, hi, le, he, b] => do
+    pure (.numRange f (← SExp.opt? SExp.rat? lo) (← SExp.opt? SExp.rat? hi) (← le.bool?) (← he.bool?)
+      (← b.rat?))
+  | .list [.atom "every", .atom f, b] => do
+    pure (.every (if f == "none" then none else some f) (← b.rat?))
+  | .list [.atom "and", .list qs, b] => do pure (.and (← qs.mapM query?) (← b.rat?))
+  | .list [.atom "or", .list qs, b] => do pure (.or (← qs.mapM query?) (← b.rat?))
+  | .list [.atom "dismax", .list qs, b] => do pure (.dismax (← qs.mapM query?) (← b.rat?))
+  | .list [.atom "not", q] => Query.not <$> query? q
+  | .list [.atom "andnot", a, b] => do pure (.andNot (← query? a) (← query? b))
+  | .list [.atom "andmaybe", a, b] => do pure (.andMaybe (← query? a) (← query? b))
+  | .list [.atom "require", a, b] => do pure (.require (← query? a) (← query? b))
+  | .list [.atom "const", q, s] => do pure (.constScore (← query? q) (← s.rat?))
+  | _ => none
+
+def mode? (e : SExp) : Option LeafScore :=
+  match e with
+  | .atom "freq" => some freqLeaf
+  | .atom "table" => some tableLeaf
+  | _ => none
+
+def showHits (hs : List Hit) : String :=
+  showList (fun h => "(" ++ toString h.id ++ " " ++ showRat h.score ++ ")") hs
+
 def handle : List SExp → String
+  | [.atom "answer", idx, .list qs] =>
+    match index? idx, qs.mapM query? with
+    | some ix, some qs => showList (fun q => showNatList (answer q ix)) qs
+    | _, _ => "bad-op"
+  | [.atom "hits", m, idx, .list qs] =>
+    match mode? m, index? idx, qs.mapM query? with
+    | some ls, some ix, some qs => showList (fun q => showHits (hits ls q ix)) qs
+    | _, _, _ => "bad-op"
+  | [.atom "rank", m, idx, .list qs] =>
+    match mode? m, index? idx, qs.mapM query? with
+    | some ls, some ix, some qs => showList (fun q => showHits (rankAll ls q ix)) qs
+    | _, _, _ => "bad-op"
+  | [.atom "compile", m, nc, sc, idx, .list qs] =>
+    match mode? m, nc.bool?, sc.bool?, index? idx, qs.mapM query? with
+    | some ls, some nc, some sc, some ix, some qs =>
+      showList (fun q => showList (fun s => showHits (compile ls balancedOracle s ⟨nc, sc⟩ q)) ix) qs
+    | _, _, _, _, _ => "bad-op"
+  | [.atom "wf", idx, .list qs] =>
+    match index? idx, qs.mapM query? with
+    | some ix, some qs =>
+      showList showBool (ix.all wfSegment :: qs.map posQuery)
+    | _, _ => "bad-op"
   | _ => "bad-op"
 
 end WM.Drv.C01
